@@ -9,6 +9,7 @@ package main
 
 import (
 	"bytes"
+	"encoding/hex"
 	"encoding/json"
 	"flag"
 	"fmt"
@@ -16,6 +17,8 @@ import (
 	"math/rand"
 	"os"
 	"path/filepath"
+	"runtime"
+	"sync"
 
 	"com.tuntun.rangers/node/src/consensus/base"
 	"com.tuntun.rangers/node/src/consensus/groupsig"
@@ -331,6 +334,174 @@ func pairings(rng *rand.Rand, nBig int) {
 	}
 }
 
+type keySigCase struct {
+	KeyClass string `json:"keyClass"`
+	Arg      int    `json:"arg"`
+	KeyEntry string `json:"keyEntry"`
+	SigClass string `json:"sigClass"`
+	SigEntry string `json:"sigEntry"`
+}
+
+// keySig: the product malformed public key x degenerate signature through every parsing entry point.
+// The verdict is what a caller that honours the entry point's error return obtains.
+func keySig(rng *rand.Rand, w *world, cases []keySigCase) {
+	honestKey := w.pk[1].Serialize()
+	msg := w.msgs[1]
+	for _, c := range cases {
+		ev := map[string]interface{}{"case": c, "applicable": true, "verdict": false, "keyErr": false, "sigErr": false, "panicked": false}
+		var kb []byte
+		ok := true
+		switch c.KeyClass {
+		case "exact":
+			kb = honestKey
+		case "empty":
+			kb = []byte{}
+		case "nil":
+			kb = nil
+		case "truncated":
+			kb = append([]byte(nil), honestKey[:c.Arg]...)
+		case "overlong":
+			kb, _ = encode(rng, honestKey, "overlong", c.Arg, 4)
+		case "nonreduced":
+			kb, ok = encode(rng, honestKey, "nonreduced", c.Arg, 4)
+		case "offcurve":
+			kb = append([]byte(nil), honestKey...)
+			y := new(big.Int).SetBytes(kb[96:128])
+			y.Add(y, big.NewInt(1)).Mod(y, bn.P)
+			y.FillBytes(kb[96:128])
+		case "identity":
+			kb = make([]byte, 128)
+		default:
+			vutil.Fatalf("unknown key class %q", c.KeyClass)
+		}
+		if !ok {
+			ev["applicable"] = false
+			emit("KeySig", ev)
+			continue
+		}
+		var sb []byte
+		switch c.SigClass {
+		case "honest":
+			sb = w.honestSig(1, 1)
+		case "identity":
+			sb = make([]byte, 64)
+		case "truncated":
+			sb = w.honestSig(1, 1)[:32]
+		case "garbage":
+			g := groupsig.Sign(w.sk[2], []byte("garbage"))
+			sb = g.Serialize()
+		case "empty":
+			sb = []byte{}
+		default:
+			vutil.Fatalf("unknown signature class %q", c.SigClass)
+		}
+		func() {
+			defer func() {
+				if r := recover(); r != nil {
+					ev["panicked"] = true
+				}
+			}()
+			var pk groupsig.Pubkey
+			keyOk := true
+			switch c.KeyEntry {
+			case "ByteToPublicKey":
+				pk = groupsig.ByteToPublicKey(kb)
+			case "Deserialize":
+				keyOk = pk.Deserialize(kb) == nil
+			case "SetHexString":
+				keyOk = pk.SetHexString("0x"+hex.EncodeToString(kb)) == nil
+			case "UnmarshalJSON":
+				keyOk = json.Unmarshal([]byte("\"0x"+hex.EncodeToString(kb)+"\""), &pk) == nil
+			default:
+				vutil.Fatalf("unknown key entry %q", c.KeyEntry)
+			}
+			var sig groupsig.Signature
+			sigOk := true
+			switch c.SigEntry {
+			case "DeserializeSign":
+				sig = *groupsig.DeserializeSign(sb)
+			case "Deserialize":
+				sigOk = sig.Deserialize(sb) == nil
+			case "SetHexString":
+				sigOk = sig.SetHexString("0x"+hex.EncodeToString(sb)) == nil
+			default:
+				vutil.Fatalf("unknown signature entry %q", c.SigEntry)
+			}
+			ev["keyErr"], ev["sigErr"] = !keyOk, !sigOk
+			ev["verdict"] = keyOk && sigOk && groupsig.VerifySig(pk, msg, sig)
+		}()
+		emit("KeySig", ev)
+		if ev["verdict"] == true {
+			counts["keySigAccepted"]++
+		}
+	}
+}
+
+// concurrency: goroutines sign and verify different (key, message) pairs at the same time; each compares
+// with what it computed alone beforehand (signature bytes, verdicts), for 32 B, 1 KiB and 16 KiB
+// messages, on all cores and on one.
+func concurrency(rng *rand.Rand, workers, iterations int) {
+	for _, procs := range []int{0, 1} {
+		old := runtime.GOMAXPROCS(0)
+		if procs == 1 {
+			runtime.GOMAXPROCS(1)
+		}
+		for _, size := range []int{32, 1024, 16384} {
+			type job struct {
+				sk       groupsig.Seckey
+				pk       groupsig.Pubkey
+				m, other []byte
+				ref      []byte
+			}
+			jobs := make([]job, workers)
+			for i := range jobs {
+				seed := make([]byte, 32)
+				rng.Read(seed)
+				jobs[i].sk = *groupsig.NewSeckeyFromRand(base.RandFromBytes(seed))
+				jobs[i].pk = *groupsig.GeneratePubkey(jobs[i].sk)
+				jobs[i].m = make([]byte, size)
+				rng.Read(jobs[i].m)
+				jobs[i].other = append([]byte(nil), jobs[i].m...)
+				jobs[i].other[size-1] ^= 1
+				sig := groupsig.Sign(jobs[i].sk, jobs[i].m)
+				jobs[i].ref = sig.Serialize()
+				if ok, _ := verify(jobs[i].pk, jobs[i].m, jobs[i].ref); !ok {
+					vutil.Fatalf("harness: sequential reference signature does not verify")
+				}
+			}
+			mism, fail, falseAcc := make([]int, workers), make([]int, workers), make([]int, workers)
+			var wg sync.WaitGroup
+			for i := range jobs {
+				wg.Add(1)
+				go func(i int) {
+					defer wg.Done()
+					j := jobs[i]
+					for it := 0; it < iterations; it++ {
+						sig := groupsig.Sign(j.sk, j.m)
+						if !bytes.Equal(sig.Serialize(), j.ref) {
+							mism[i]++
+						}
+						if ok, _ := verify(j.pk, j.m, j.ref); !ok {
+							fail[i]++
+						}
+						if ok, _ := verify(j.pk, j.other, j.ref); ok {
+							falseAcc[i]++
+						}
+					}
+				}(i)
+			}
+			wg.Wait()
+			mm, ff, fa := 0, 0, 0
+			for i := range jobs {
+				mm, ff, fa = mm+mism[i], ff+fail[i], fa+falseAcc[i]
+			}
+			emit("Concurrent", map[string]interface{}{"gomaxprocs": runtime.GOMAXPROCS(0), "goroutines": workers, "iterations": iterations,
+				"size": fmt.Sprintf("%dB", size), "sigMismatches": mm, "verifyFailures": ff, "falseAccepts": fa})
+		}
+		runtime.GOMAXPROCS(old)
+	}
+}
+
 type msgPair struct {
 	Rel  string `json:"rel"`
 	Salt int    `json:"salt"`
@@ -416,11 +587,23 @@ func main() {
 	extras := flag.Bool("extras", false, "also record round trips, pairings, pairing-value comparison")
 	nBig := flag.Int("bigpairs", 4, "pairings on 255-bit scalars (with --extras)")
 	sweep := flag.Int("sweep", 0, "honest sign/verify/round-trip of this many fresh random messages (completeness over messages)")
+	keyScript := flag.String("keyscript", "", "JSON file: malformed key x degenerate signature cases generated by TLC")
+	conc := flag.Int("concurrent", 0, "iterations per goroutine of the concurrent sign/verify family (0: off)")
 	msgScript := flag.String("msgscript", "", "JSON file: related message pairs generated by TLC")
 	msgOrder := flag.String("msgorder", "fwd", "which order of every pair this process replays (fwd | rev)")
 	others := flag.Int("others", 1500, "unrelated messages hashed between the two verifications of a History event")
 	flag.Parse()
 	outAbs, _ := filepath.Abs(*out)
+	var kcases []keySigCase
+	if *keyScript != "" {
+		b, err := os.ReadFile(*keyScript)
+		if err != nil {
+			vutil.Fatalf("read keyscript: %v", err)
+		}
+		if err := json.Unmarshal(b, &kcases); err != nil {
+			vutil.Fatalf("parse keyscript: %v", err)
+		}
+	}
 	var mcases []msgCase
 	if *msgScript != "" {
 		b, err := os.ReadFile(*msgScript)
@@ -471,6 +654,12 @@ func main() {
 			emit("Verify", map[string]interface{}{"case": c, "applicable": true, "verdict": v, "eqHonest": true, "len": len(wire), "panicked": p})
 		}
 	}
+	if len(kcases) > 0 {
+		keySig(rng, newWorld(rng), kcases)
+	}
+	if *conc > 0 {
+		concurrency(rng, 8, *conc)
+	}
 	if len(mcases) > 0 {
 		// first thing related messages meet in this process is each other (before the history runs)
 		w := newWorld(rng)
@@ -478,7 +667,7 @@ func main() {
 		history(rng, w, *others)
 	}
 	tr.Close()
-	fmt.Printf("c14: msgpair=%d history=%d verify=%d notApplicable=%d g1parse=%d roundtrip=%d pair=%d pairbig=%d gteq=%d events=%d\n",
-		counts["MsgPair"], counts["History"],
+	fmt.Printf("c14: keysig=%d keySigAccepted=%d concurrent=%d msgpair=%d history=%d verify=%d notApplicable=%d g1parse=%d roundtrip=%d pair=%d pairbig=%d gteq=%d events=%d\n",
+		counts["KeySig"], counts["keySigAccepted"], counts["Concurrent"], counts["MsgPair"], counts["History"],
 		counts["Verify"], counts["notApplicable"], counts["G1Parse"], counts["RoundTrip"], counts["Pair"], counts["PairBig"], counts["GtEq"], tr.N)
 }
